@@ -394,7 +394,7 @@ fn bgdeliver_worker(prop: &str, variant: &str, seed: u64, wid: u64, cases: u32, 
     let interval_ms = if variant == "bgdeliver25" { 25 } else { 0 };
     bgdeliver::install(interval_ms);
     let strategy = bgdeliver::strategy_for(prop);
-    let cfg = Config { cases, failure_persistence: None, max_shrink_iters: 40, ..Config::default() };
+    let cfg = Config { cases, failure_persistence: None, max_shrink_iters: if prop == "C07" { 2 } else { 40 }, ..Config::default() };
     let mut runner = TestRunner::new_with_rng(cfg, TestRng::from_seed(RngAlgorithm::ChaCha, &seed_bytes(seed, wid, variant)));
     let start = std::time::Instant::now();
     // evaluations, hashes, samples, failed, flickers, latencies, exits, expected
@@ -416,7 +416,8 @@ fn bgdeliver_worker(prop: &str, variant: &str, seed: u64, wid: u64, cases: u32, 
                 s.2.push(serde_json::to_value(&c).unwrap());
             }
         }
-        match o.violations.iter().find(|(sig, _)| !known.contains(sig)) {
+        // C07 is about calls returning, not about what is delivered when
+        match o.violations.iter().find(|(sig, _)| !known.contains(sig) && (prop != "C07" || sig.starts_with("blocked:"))) {
             None => Ok(()),
             Some((sig, _)) => {
                 s.3 = true;
@@ -455,7 +456,7 @@ fn bgdeliver_worker(prop: &str, variant: &str, seed: u64, wid: u64, cases: u32, 
                    format!("no_flush_latency_us_p50_{}", variant): pct(0.5), format!("no_flush_latency_us_p99_{}", variant): pct(0.99), format!("no_flush_latency_us_max_{}", variant): pct(1.0)},
         "excluded": {}, "known_hits": {}, "samples": s.2,
         "records_delivered": s.5.len(), "ops_executed": 0, "ops_skipped": 0, "failure": failure,
-        "rule": "no further call needed: real set_reporter (Config::default(), or report_interval 25 ms), real background collector thread, 1-8 plain OS threads with staggered starts finish generated spans (whole traces, handed-off children, two-parent spans, local scopes, backlogs of thousands of commands; in_span futures created on the main thread and completed on the new thread as its first tracing activity - always for C13) with generated pauses, half of them exit directly after their last finish, a fifth of the cases beside a pool of 32-47 registered threads; nobody calls flush(); oracle: every finished span is reported (once per parent) within 5 s (believed only when reproduced 3 of 3), never twice, nothing unknown; every case is non-trivial (>=1 span finished without a later call); distinct = hash of the case; latencies finish->report are reported as labels (microseconds), not judged",
+        "rule": "no further call needed: real set_reporter (Config::default(), or report_interval 25 ms), real background collector thread, 1-8 plain OS threads with staggered starts finish generated spans (whole traces, handed-off children, two-parent spans, local scopes, backlogs of thousands of commands; in_span futures created on the main thread and completed on the new thread as its first tracing activity - always for C13) with generated pauses, half of them exit directly after their last finish, a fifth of the cases beside a pool of 32-47 registered threads; nobody calls flush(); oracle: every finished span is reported (once per parent) within 5 s (believed only when reproduced 3 of 3), never twice, nothing unknown; every case is non-trivial (>=1 span finished without a later call); distinct = hash of the case; latencies finish->report are reported as labels (microseconds), not judged; as a C07 job: in half of the cases the reporter itself uses the tracing API inside report(), and after the records arrived a thread calls flush(), which has to return within 8 s (only that verdict counts for C07)",
         "wall_s": start.elapsed().as_secs_f64(),
     });
     std::fs::File::create(out).unwrap().write_all(serde_json::to_string(&res).unwrap().as_bytes()).unwrap();
